@@ -29,7 +29,7 @@ def a_task(prop, mk, tier="quick"):
     return Task(id=f"{prop}.A.{name}", prop=prop, target=name, run=run, tier=tier)
 
 
-def verify_with_deadline(c, tier, deadline_s=None):
+def verify_with_deadline(c, tier, deadline_s=None, _attempt=0):
     """verify(c) in a forked child with a wall-clock deadline.  z3 sometimes ignores both its timeout and Z3_interrupt (observed on VCs produced from a seeded change:
     minutes inside Z3_solver_check past a 30 s budget); the child is then killed, the contract is reported as undecided and its bounded stand-in is run here."""
     import multiprocessing, os, time
@@ -55,6 +55,9 @@ def verify_with_deadline(c, tier, deadline_s=None):
         except (EOFError, OSError):
             kind, payload = "err", f"the verifier process ended without a result (exit code {p.exitcode})"
         p.join(timeout=10)
+        if kind == "err" and payload.startswith("the verifier process ended without a result") and _attempt < 2:
+            # the solver library crashed in the child (observed once: SIGSEGV inside libz3 on a VC set that is decided in every other run): nothing was decided, run it again
+            return verify_with_deadline(c, tier, deadline_s, _attempt + 1)
         if kind == "ok":
             return payload
         from harness.loader import TargetMissing
